@@ -198,6 +198,7 @@ def run(res, tier):
     res.rule("CNV-1", "hi * base2k + lo + base2k == cnv_offset on every path; all cnv_* calls of a product receive hi, all vec_znx_big_normalize calls receive lo")
     res.rule("CNV-2", "glwe_tensor_square_apply, glwe_tensor_apply and glwe_tensor_apply_add_assign derive (hi, lo) from the same expressions")
     res.rule("CNV-3", "in-place / out-of-place forms of a convolution product size the product accumulator from the same quantities (operand limb counts, offset)")
+    res.rule("UNIT-1", "comparisons, min and max between limb counts, key row counts and bit precisions (limbs = rows * dsize, bits = limbs * base2k) relate quantities of the same unit")
     res.rule("RAD-1", "a cross-radix conversion skipped / taken on a radix comparison is guarded by the comparison of exactly its input and output radices (relinearisation)")
     res.rule("RAD-2", "no call of an operation asserting equal radices of two arguments sits on a branch whose guards imply that they differ")
     res.assumptions = ["cnv_* kernels shift the product by `hi` limbs and vec_znx_big_normalize by `lo` bits (C07 / C08)", "a convolution output sits one limb below the sum of the operand positions (the `+ base2k` of the law is read off the code, the same in all seven products)"]
@@ -227,4 +228,6 @@ def run(res, tier):
         res.floor("RAD-1", "guarded radix conversions of the products", nr1, 2)
         nr2 = rad.rad2(p, res, RAD_PREFIXES)
         res.floor("RAD-2", "calls of radix-asserting operations", nr2, 2)
+        nu = rad.unit1(p, res, RAD_PREFIXES + ("poulpy_ckks",))
+        res.floor("UNIT-1", "comparisons / min / max between quantities of known units", nu, 10)
         res.fn_count += n
